@@ -585,6 +585,27 @@ func GenCase(tape *sim.Tape, crashBias bool) *Case {
 	if iv.Type != "" && tape.Draw(4) == 0 {
 		iv.UseMime = true
 	}
+	// inputs named by their absolute paths; in half of these runs the scenario root is the
+	// root of the file system (chroot in the child), as in a container image with WORKDIR /:
+	// "/src" and "/a.css" lie directly below "/". Only for complete fault-free runs (C19):
+	// path patterns of injected errors and crash points are written for relative names.
+	if !crashBias && iv.Stdin == nil && len(iv.Filters) == 0 && tape.Draw(6) == 0 {
+		ok := len(iv.Inputs) > 0
+		for _, in := range iv.Inputs {
+			// (an input that cleans to the scenario root itself, like "src/..", would be named
+			// by the root's own directory name when absolute: not the same invocation)
+			if in == "-" || strings.HasPrefix(in, ".") || strings.Contains(in, "..") || strings.HasPrefix(in, "@ROOT@") || strings.HasPrefix(in, "/") {
+				ok = false
+			}
+		}
+		if ok {
+			for i, in := range iv.Inputs {
+				iv.Inputs[i] = "@ROOT@/" + in
+			}
+			iv.AbsInputs = true
+			iv.Chroot = tape.Draw(2) == 0
+		}
+	}
 	// size of the worker pool: 4 (1 CPU), 6, 9 or whatever the machine gives
 	if tape.Draw(2) == 0 {
 		iv.CPUs = []int{1, 6, 9}[tape.Draw(3)]
